@@ -222,6 +222,41 @@ def worker(case, led):
             Gt = G.conj_trans()
             led.check(close(S.dense(Gt), Gd.conj().T), "post:Mpo.conj_trans:dense_adjoint", "Mpo.conj_trans", "adjoint wrong", key + ("G+",), {}, rep)
             led.check(not S.qnv_violations(Gt), "post:Mpo.conj_trans:qn_valid", "Mpo.conj_trans", "adjoint labels invalid", key + ("G+-qnv",), {}, rep)
+    # ---- density operators: operator x density operator (H rho) and density operator x operator (rho H); only the upper physical index of a density
+    #      operator carries charge, so a right factor must leave the bond labels alone whatever its own bond labels are
+    if H is not None:
+        for q in sel[:2]:
+            a0 = U.make_state(model, q, 3, rng, complex_=(rng.random() < 0.5))
+            if a0 is None:
+                continue
+            for gd in ("fresh", "cano", "center"):
+                rho = S.apply_gauge(MpDm.from_mps(a0), gd, int(rng.integers(n)))
+                rho = H.apply(rho) if rng.random() < 0.5 else rho       # a density operator that is not diagonal
+                Rd = S.dense(rho)
+                if np.abs(Rd).max() < 1e-12:
+                    continue
+                key = (name, n, str(q), "mpdm", gd)
+                rep = {"model": name, "nsites": n, "sector": q, "gauge": gd, "terms": [repr(t) for t in terms], "seed": seed, "rho": describe(rho)}
+                fields = {"density_operator": True, "operator_has_charged_bonds": bool(any(np.any(np.asarray(x) != 0) for x in H.qn))}
+                for side, fn, mk, ref in (("rho H", "MpDm.apply", lambda: rho.apply(H), Rd @ Hd), ("H rho", "Mpo.apply", lambda: H.apply(rho), Hd @ Rd)):
+                    try:
+                        r = mk()
+                    except Exception as e:
+                        led.check(False, f"post:{fn}:density_operator_total", fn, f"{side} raised {type(e).__name__}: {e}", key + (side,), fields, rep)
+                        continue
+                    led.check(close(S.dense(r), ref), f"post:{fn}:density_operator_product", fn, f"dense({side}) != product of the dense matrices", key + (side, "dense"), fields, rep)
+                    v = S.qnv_violations(r)
+                    led.check(not v, f"post:{fn}:density_operator_product_qn_valid", fn, f"{side}: labels invalid: {v[:1]}", key + (side, "qnv"), fields, rep,
+                              nontrivial=fields["operator_has_charged_bonds"])
+                    for how, r2 in lossless_variants(r):
+                        led.check(close(S.dense(r2), ref), f"post:{fn}:density_operator_product_correct_after_canonicalise", fn, f"{side} wrong after {how}",
+                                  key + (side, how), fields, dict(rep, then=how), nontrivial=fields["operator_has_charged_bonds"])
+                    led.check(close(S.dense(rho), Rd), f"frame:{fn}:density_operator_input", fn, f"{side} changed the density operator", key + (side, "frame"), fields, rep)
+                try:
+                    rc = rho.apply(H, canonicalise=True)
+                    led.check(close(S.dense(rc), Rd @ Hd), "post:MpDm.apply:canonicalise_flag", "MpDm.apply", "rho.apply(H, canonicalise=True) differs from rho H", key + ("canoflag",), fields, rep)
+                except Exception as e:
+                    led.check(False, "post:MpDm.apply:density_operator_total", "MpDm.apply", f"apply(canonicalise=True) raised {type(e).__name__}: {e}", key + ("canoflag",), fields, rep)
     # ---- charged operators: sector shift and adjoint
     eo = [(op, ch, s) for op, ch, s in U.elem_ops(model) if any(ch)]
     if eo:
